@@ -170,6 +170,18 @@ func hostileSweep() []func(c *Cfg) string {
 		v := v
 		add("serial", func(c *Cfg) { c.Serial = v })
 	}
+	for _, v := range []string{"9223372036854775808", "18446744073709551615", "18446744073709551616", "-9223372036854775809", "1e3", "1.0", "12345678901234567890123456789012345678901234567890"} {
+		v := v
+		add("serial-text", func(c *Cfg) { c.SerialBig = v })
+	}
+	// general names without a "type" key (the schema requires neither key), alone and between well-formed entries
+	add("san-typeless", func(c *Cfg) { c.Exts = []Ext{{Kind: "san", HasContent: true, Crit: -1, Names: [][2]string{{"-", "other.example.org"}}}} })
+	add("san-typeless-second", func(c *Cfg) {
+		c.Exts = []Ext{{Kind: "san", HasContent: true, Crit: -1, Names: [][2]string{{"dns", "a.example"}, {"-", "b.example"}, {"mail", "c@d.example"}}}}
+	})
+	add("admission-typeless", func(c *Cfg) {
+		c.Exts = []Ext{{Kind: "adm", HasContent: true, Crit: -1, Adm: &Admission{Auth: &[2]string{"-", "x"}, List: []Admissions{{Auth: &[2]string{"-", "y"}, Infos: []ProfInfo{{Items: []string{"x"}}}}}}}}
+	})
 	// the empty string (and a blank) in every string slot of the extension schemas
 	for _, v := range []string{"", " "} {
 		v := v
